@@ -281,40 +281,37 @@ namespace smt
 
     SMT_EXPORT std::pair<inf_rational, inf_rational> rdl_theory::bounds(const lin &l) const
     {
-        inf_rational c_lb;
-        inf_rational c_ub;
-
         switch (l.vars.size())
         {
         case 0:
-            c_lb += l.known_term;
-            c_ub += l.known_term;
-            break;
+            return std::make_pair(inf_rational(l.known_term), inf_rational(l.known_term));
         case 1:
         {
-            auto it = l.vars.cbegin();
-            c_lb += lb(it->first) * it->second + l.known_term;
-            c_ub += ub(it->first) * it->second + l.known_term;
-            break;
+            const auto [v, c] = *l.vars.cbegin();
+            if (is_positive(c))
+                return std::make_pair(lb(v) * c + l.known_term, ub(v) * c + l.known_term);
+            else // a negative coefficient swaps the bounds..
+                return std::make_pair(ub(v) * c + l.known_term, lb(v) * c + l.known_term);
         }
         case 2:
         {
-            const auto expr = l / l.vars.cbegin()->second;
+            const rational c = l.vars.cbegin()->second;
+            const auto expr = l / c;
             auto it = expr.vars.cbegin();
             const auto [v0, c0] = *it++;
             assert(c0 == rational::ONE);
             const auto [v1, c1] = *it;
             if (c1 != -rational::ONE)
                 throw std::invalid_argument("not a valid real difference logic expression..");
-            const auto dist = distance(v0, v1);
-            c_lb += dist.first + expr.known_term;
-            c_ub += dist.second + expr.known_term;
-            break;
+            const auto dist = distance(v1, v0); // the bounds of 'v0 - v1'..
+            if (is_positive(c))
+                return std::make_pair((dist.first + expr.known_term) * c, (dist.second + expr.known_term) * c);
+            else
+                return std::make_pair((dist.second + expr.known_term) * c, (dist.first + expr.known_term) * c);
         }
         default:
             throw std::invalid_argument("not a valid real difference logic expression..");
         }
-        return std::make_pair(c_lb, c_ub);
     }
 
     SMT_EXPORT std::pair<inf_rational, inf_rational> rdl_theory::distance(const lin &from, const lin &to) const
